@@ -15,6 +15,7 @@ use ark_poly::{
     DenseMVPolynomial, DenseMultilinearExtension, DenseUVPolynomial, Polynomial,
 };
 use ark_poly_commit::{
+    LabeledCommitment,
     hyrax::HyraxPC,
     ipa_pc::InnerProductArgPC,
     linear_codes::{LinearCodePCS, MultilinearBrakedown, MultilinearLigero, UnivariateLigero},
@@ -103,6 +104,23 @@ pub trait Adapter: 'static + Sized {
         _sp: &LogSponge<Self::F>,
         _rng: &mut ChaCha20Rng,
     ) -> Option<(Proof<Self>, Self::F)> {
+        None
+    }
+
+    /// Independent evaluation of the scheme's single-point verification relation (C10).
+    fn reference_check(
+        _vk: &VK<Self>,
+        _comms: &[&LabeledCommitment<Comm<Self>>],
+        _point: &Self::Pt,
+        _values: &[Self::F],
+        _proof: &Proof<Self>,
+        _sp: &mut LogSponge<Self::F>,
+    ) -> Option<bool> {
+        None
+    }
+
+    /// Variants of the verifier key with one element replaced (C10): returns None when not applicable.
+    fn vk_variant(_kind: &str, _vk: &VK<Self>, _rng: &mut ChaCha20Rng) -> Option<VK<Self>> {
         None
     }
 
@@ -407,6 +425,26 @@ impl Adapter for Marlin {
     fn make_poly(spec: &PolySpec, _beh: &Beh, rng: &mut ChaCha20Rng) -> Self::P {
         uni_poly(spec, rng)
     }
+    fn reference_check(vk: &VK<Self>, comms: &[&LabeledCommitment<Comm<Self>>], point: &Self::Pt, values: &[Self::F], proof: &Proof<Self>, sp: &mut LogSponge<Self::F>) -> Option<bool> {
+        crate::relation::marlin(vk, comms, point, values, proof, sp)
+    }
+    fn vk_variant(kind: &str, vk: &VK<Self>, rng: &mut ChaCha20Rng) -> Option<VK<Self>> {
+        let mut v = vk.clone();
+        let g1 = |rng: &mut ChaCha20Rng| <E381 as Pairing>::G1::rand(rng).into_affine();
+        let g2 = |rng: &mut ChaCha20Rng| <E381 as Pairing>::G2::rand(rng).into_affine();
+        match kind {
+            "g" => v.vk.g = g1(rng),
+            "gamma_g" => v.vk.gamma_g = g1(rng),
+            "h" => { v.vk.h = g2(rng); v.vk.prepared_h = v.vk.h.into(); }
+            "beta_h" => { v.vk.beta_h = g2(rng); v.vk.prepared_beta_h = v.vk.beta_h.into(); }
+            "shift" => match v.degree_bounds_and_shift_powers.as_mut() {
+                Some(t) if !t.is_empty() => { let n = t.len(); t[n - 1].1 = g1(rng); }
+                _ => return None,
+            },
+            _ => return None,
+        }
+        Some(v)
+    }
     fn make_point(id: i64, _beh: &Beh) -> Self::Pt {
         point_fe(id)
     }
@@ -511,6 +549,26 @@ impl Adapter for Sonic {
     fn make_poly(spec: &PolySpec, _beh: &Beh, rng: &mut ChaCha20Rng) -> Self::P {
         uni_poly(spec, rng)
     }
+    fn reference_check(vk: &VK<Self>, comms: &[&LabeledCommitment<Comm<Self>>], point: &Self::Pt, values: &[Self::F], proof: &Proof<Self>, sp: &mut LogSponge<Self::F>) -> Option<bool> {
+        crate::relation::sonic(vk, comms, point, values, proof, sp)
+    }
+    fn vk_variant(kind: &str, vk: &VK<Self>, rng: &mut ChaCha20Rng) -> Option<VK<Self>> {
+        let mut v = vk.clone();
+        let g1 = |rng: &mut ChaCha20Rng| <E381 as Pairing>::G1::rand(rng).into_affine();
+        let g2 = |rng: &mut ChaCha20Rng| <E381 as Pairing>::G2::rand(rng).into_affine();
+        match kind {
+            "g" => v.g = g1(rng),
+            "gamma_g" => v.gamma_g = g1(rng),
+            "h" => { v.h = g2(rng); v.prepared_h = v.h.into(); }
+            "beta_h" => { v.beta_h = g2(rng); v.prepared_beta_h = v.beta_h.into(); }
+            "shift" => match v.degree_bounds_and_neg_powers_of_h.as_mut() {
+                Some(t) if !t.is_empty() => { let n = t.len(); t[n - 1].1 = g2(rng); }
+                _ => return None,
+            },
+            _ => return None,
+        }
+        Some(v)
+    }
     fn make_point(id: i64, _beh: &Beh) -> Self::Pt {
         point_fe(id)
     }
@@ -553,6 +611,21 @@ impl Adapter for Ipa {
     const FAMILY: &'static str = "uni";
     fn make_poly(spec: &PolySpec, _beh: &Beh, rng: &mut ChaCha20Rng) -> Self::P {
         uni_poly(spec, rng)
+    }
+    fn reference_check(vk: &VK<Self>, comms: &[&LabeledCommitment<Comm<Self>>], point: &Self::Pt, values: &[Self::F], proof: &Proof<Self>, sp: &mut LogSponge<Self::F>) -> Option<bool> {
+        crate::relation::ipa(vk, comms, point, values, proof, sp)
+    }
+    fn vk_variant(kind: &str, vk: &VK<Self>, rng: &mut ChaCha20Rng) -> Option<VK<Self>> {
+        let mut v = vk.clone();
+        let g = |rng: &mut ChaCha20Rng| <GEd as AffineRepr>::Group::rand(rng).into_affine();
+        match kind {
+            "h" => v.h = g(rng),
+            "s" => v.s = g(rng),
+            "g" => v.comm_key[0] = g(rng),
+            "shift" => { let n = v.comm_key.len(); v.comm_key[n - 1] = g(rng); }
+            _ => return None,
+        }
+        Some(v)
     }
     fn make_point(id: i64, _beh: &Beh) -> Self::Pt {
         point_fe(id)
@@ -692,6 +765,23 @@ impl Adapter for Pst13 {
     fn make_poly(spec: &PolySpec, beh: &Beh, rng: &mut ChaCha20Rng) -> Self::P {
         mv_poly(spec, nv_of(beh), rng)
     }
+    fn reference_check(vk: &VK<Self>, comms: &[&LabeledCommitment<Comm<Self>>], point: &Self::Pt, values: &[Self::F], proof: &Proof<Self>, sp: &mut LogSponge<Self::F>) -> Option<bool> {
+        crate::relation::pst13(vk, comms, point, values, proof, sp)
+    }
+    fn vk_variant(kind: &str, vk: &VK<Self>, rng: &mut ChaCha20Rng) -> Option<VK<Self>> {
+        let mut v = vk.clone();
+        let g1 = |rng: &mut ChaCha20Rng| <E381 as Pairing>::G1::rand(rng).into_affine();
+        let g2 = |rng: &mut ChaCha20Rng| <E381 as Pairing>::G2::rand(rng).into_affine();
+        match kind {
+            "g" => v.g = g1(rng),
+            "gamma_g" => v.gamma_g = g1(rng),
+            "h" => { v.h = g2(rng); v.prepared_h = v.h.into(); }
+            "beta_h" => { v.beta_h[0] = g2(rng); v.prepared_beta_h[0] = v.beta_h[0].into(); }
+            "shift" => { let n = v.beta_h.len(); v.beta_h[n - 1] = g2(rng); v.prepared_beta_h[n - 1] = v.beta_h[n - 1].into(); }
+            _ => return None,
+        }
+        Some(v)
+    }
     fn make_point(id: i64, beh: &Beh) -> Self::Pt {
         point_vec(id, nv_of(beh))
     }
@@ -793,6 +883,20 @@ impl Adapter for Hyrax {
     const FAMILY: &'static str = "ml";
     fn make_poly(spec: &PolySpec, beh: &Beh, rng: &mut ChaCha20Rng) -> Self::P {
         ml_poly(spec, ml_nv(spec, beh), rng)
+    }
+    fn reference_check(vk: &VK<Self>, comms: &[&LabeledCommitment<Comm<Self>>], point: &Self::Pt, values: &[Self::F], proof: &Proof<Self>, sp: &mut LogSponge<Self::F>) -> Option<bool> {
+        crate::relation::hyrax(vk, comms, point, values, proof, sp)
+    }
+    fn vk_variant(kind: &str, vk: &VK<Self>, rng: &mut ChaCha20Rng) -> Option<VK<Self>> {
+        let mut v = vk.clone();
+        let g = |rng: &mut ChaCha20Rng| <GEd as AffineRepr>::Group::rand(rng).into_affine();
+        match kind {
+            "h" => v.h = g(rng),
+            "g" => v.com_key[0] = g(rng),
+            "shift" => { let n = v.com_key.len(); v.com_key[n - 1] = g(rng); }
+            _ => return None,
+        }
+        Some(v)
     }
     fn make_point(id: i64, beh: &Beh) -> Self::Pt {
         point_vec(id, nv_of(beh))
@@ -938,6 +1042,11 @@ macro_rules! lincode_adapter {
                     return vec![];
                 }
                 ["v0", "wf0", "col0", "path0"].iter().map(|s| s.to_string()).collect()
+            }
+            fn reference_check(vk: &VK<Self>, comms: &[&LabeledCommitment<Comm<Self>>], point: &Self::Pt, values: &[Self::F], proof: &Proof<Self>, sp: &mut LogSponge<Self::F>) -> Option<bool> {
+                use ark_poly_commit::verif_api::linear_codes as lc;
+                let cs: Vec<_> = comms.iter().map(|c| lc::commitment_parts::<MTConfig>(c.commitment())).collect();
+                $crate::relation::lincode::<$enc, $p>(vk, &cs, point, values, proof, sp)
             }
             fn forge(
                 kind: &str,
